@@ -17,7 +17,7 @@ struct hx_proc {
 
 extern struct hx_proc hx_procs[HX_MAXPROC];
 extern size_t hx_nprocs;
-extern double hx_now, hx_stop, hx_late;
+extern double hx_now, hx_stop, hx_late, hx_mono_off;
 extern int hx_iter_log;
 extern long hx_fs_calls, hx_crash_at, hx_fault_at;
 extern int hx_fault_errno;
